@@ -55,6 +55,31 @@ def deser(parent, item):
     return item["data"]
 
 
+def ser_newdict(node, data):
+    """Mapper style 2: returns a *new* dict instead of editing in place."""
+    d = node.data
+    out = dict(data)
+    if isinstance(d, Obj):
+        out.update(name=d.name, extra=d.extra, guid=d.guid)
+    return out
+
+
+def ser_ownkey(node, data):
+    """Mapper style 3: stores the id under its own key only; the inverse mapper restores item['data_id']."""
+    d = node.data
+    if isinstance(d, Obj):
+        data.update(name=d.name, extra=d.extra, guid=d.guid)
+        data.pop("data_id", None)
+    return data
+
+
+def deser_ownkey(parent, item):
+    if "guid" in item:
+        item["data_id"] = item["guid"]
+        return Obj(item["name"], item["guid"], item["extra"])
+    return item["data"]
+
+
 def build(case):
     from nutree import Tree
 
@@ -85,7 +110,7 @@ def build(case):
             used = {ids[j] for j in range(i) if par[j] == par[i]}
             for _ in range(60):
                 lab = rng.choice(["a", "b", "c"])
-                did = rng.choice([None, "X", "Y", 5, 6, lab + "_id"])
+                did = rng.choice([None, "X", "Y", 5, 6, lab + "_id", 0, ""])
                 eff = hash(lab) if did is None else did
                 if eff not in used:
                     break
@@ -121,7 +146,7 @@ def shape(t):
     return rec(list(t.children))
 
 
-def mirror(dicts, kids, mapper_used, bad, path="/"):
+def mirror(dicts, kids, mapper_used, bad, path="/", ownkey=False):
     if not isinstance(dicts, list) or len(dicts) != len(kids):
         bad.append(f"{path}: {len(dicts) if isinstance(dicts, list) else dicts!r} dicts for {len(kids)} nodes")
         return
@@ -134,11 +159,14 @@ def mirror(dicts, kids, mapper_used, bad, path="/"):
         default = c.data_id == hash(c.data)
         if default and "data_id" in d:
             bad.append(f"{path}{c.data}: data_id emitted although it is the default")
-        if not default and d.get("data_id", "<missing>") != c.data_id:
+        if ownkey and isinstance(c.data, Obj):
+            if "data_id" in d:
+                bad.append(f"{path}{c.data}: mapper removed data_id but it is present")
+        elif not default and d.get("data_id", "<missing>") != c.data_id:
             bad.append(f"{path}{c.data}: data_id {d.get('data_id', '<missing>')!r} != {c.data_id!r}")
         ck = list(c.children)
         if ck or "children" in d:
-            mirror(d.get("children", []), ck, mapper_used, bad, f"{path}{c.data}/")
+            mirror(d.get("children", []), ck, mapper_used, bad, f"{path}{c.data}/", ownkey)
         allowed = {"data", "data_id", "children"} | ({"name", "extra", "guid"} if mapper_used else set())
         if set(d) - allowed:
             bad.append(f"{path}{c.data}: unexpected keys {set(d) - allowed}")
@@ -200,17 +228,20 @@ def run_case(case, res):
             else:
                 mapper_used = fl == "obj"
                 src = shape(t)
-                dl = attempt(lambda: t.to_dict_list(mapper=ser) if mapper_used else t.to_dict_list())
+                style = case.get("style", 0) if mapper_used else 0
+                ser_f, deser_f = [(ser, deser), (ser_newdict, deser), (ser_ownkey, deser_ownkey)][style]
+                res.count(f"mapper_style:{style}" if mapper_used else "no_mapper")
+                dl = attempt(lambda: t.to_dict_list(mapper=ser_f) if mapper_used else t.to_dict_list())
                 res.count("to_dict_list")
                 if isinstance(dl, tuple):
                     bad.append(f"to_dict_list raised {dl!r}")
                 else:
-                    mirror(dl, list(t.children), mapper_used, bad)
+                    mirror(dl, list(t.children), mapper_used, bad, ownkey=style == 2)
                     if shape(t) != src:
                         bad.append("to_dict_list changed the source")
                     for variant in ("direct", "json"):
                         doc = dl if variant == "direct" else json.loads(json.dumps(dl))
-                        t2 = attempt(lambda: Tree.from_dict(doc, mapper=deser) if mapper_used else Tree.from_dict(doc))
+                        t2 = attempt(lambda: Tree.from_dict(json.loads(json.dumps(doc)) if variant == "direct" and style == 2 else doc, mapper=deser_f) if mapper_used else Tree.from_dict(doc))
                         res.count("round_trips")
                         if isinstance(t2, tuple):
                             bad.append(f"from_dict ({variant}) raised {t2!r}")
@@ -224,16 +255,16 @@ def run_case(case, res):
                             bad.append(f"round trip ({variant}): count {t2.count}/{t2.count_unique} vs {t.count}/{t.count_unique}")
                     # branch form: Node.to_dict / Node.from_dict
                     for x in nodes[:3]:
-                        d = attempt(lambda: x.to_dict(mapper=ser) if mapper_used else x.to_dict())
+                        d = attempt(lambda: x.to_dict(mapper=ser_f) if mapper_used else x.to_dict())
                         if isinstance(d, tuple):
                             bad.append(f"to_dict raised {d!r}")
                             continue
                         b = []
-                        mirror([d], [x], mapper_used, b)
+                        mirror([d], [x], mapper_used, b, ownkey=style == 2)
                         bad.extend(b)
                         t4 = Tree("t4", calc_data_id=calc_id if mapper_used else None)
                         top = t4.add("TOP")
-                        r = attempt(lambda: top.from_dict([d], mapper=deser if mapper_used else None))
+                        r = attempt(lambda: top.from_dict([json.loads(json.dumps(d))], mapper=deser_f if mapper_used else None))
                         if isinstance(r, tuple):
                             bad.append(f"Node.from_dict raised {r!r}")
                         else:
@@ -274,7 +305,8 @@ def run_shard(spec, res):
                 if k % NSHARDS != spec["i"]:
                     continue
                 for fl in FLAVOURS:
-                    run_case({"f": gen.code(f), "flavour": fl, "seed": seed}, res)
+                    for style in ((0, 1, 2) if fl == "obj" else (0,)):
+                        run_case({"f": gen.code(f), "flavour": fl, "seed": seed, "style": style}, res)
                 if res.expired():
                     res.count("exhaustive_cut")
                     res.inconc("enumeration cut by time budget")
@@ -283,6 +315,6 @@ def run_shard(spec, res):
         rng = rng_for(seed, "c14-rand", spec["i"])
         for j in range(spec["count"]):
             f = gen.random_forest(rng, rng.randint(6, 30))
-            run_case({"f": gen.code(f), "flavour": rng.choice(FLAVOURS), "seed": rng.randrange(10**6)}, res)
+            run_case({"f": gen.code(f), "flavour": rng.choice(FLAVOURS), "seed": rng.randrange(10**6), "style": rng.randrange(3)}, res)
             if res.expired():
                 break
